@@ -363,6 +363,18 @@ GROUPS = [
 ]
 
 
+def f64_mant(text):
+    """(m, e) with float(text) == m * 2**-e exactly and 2**52 <= m < 2**53 (normal positive doubles below 1)"""
+    import math
+    x = float(text)
+    if not (0 < x < 1):
+        return (0, 0)
+    m, e = math.frexp(x)                # x = m * 2**e, 0.5 <= m < 1
+    mant = int(m * (1 << 53))
+    assert mant * 2.0 ** (e - 53) == x
+    return (mant, 53 - e)
+
+
 def emit(V, C, broken):
     btm = V['btm']
     emp = V['emp']
@@ -529,6 +541,9 @@ def fullWindowMaxIndex : Nat := {int(full_window[0])}
 def latencyMs : Nat := {latency}
 def sleepCutMs : Nat := {cut}
 def fractionText : String := "{fraction}"
+/-- the literal as an IEEE-754 binary64: value = fractionMant * 2^-fractionExp (53-bit significand) -/
+def fractionMant : Nat := {f64_mant(fraction)[0]}
+def fractionExp : Nat := {f64_mant(fraction)[1]}
 
 /-- Number of unchecked sites found in src/ (inventory in gen/constants.json). -/
 def unsafeSiteCount : Nat := {len(sites)}
